@@ -82,7 +82,9 @@ def sym_sum(e, lens):
                 a = var[0][0]  # the remaining axes of a partial sum are summed: the whole grid sum
                 out = out + base * sym_sum(a[1], tuple(a[3]) + lens)
                 continue
-            out = out + base * Poly.atom(("Sum", Poly({var: ONE}), lens))
+            # the summation domain is the whole grid however its axes are grouped ((N, N) or the flattened (N^2,)):
+            # only the number of points is recorded
+            out = out + base * Poly.atom(("Sum", Poly({var: ONE}), (tot,) if len(lens) > 1 else lens))
         else:
             out = out + base * tot
     return out
